@@ -53,6 +53,7 @@ type Op struct {
 	Sweep   bool   `json:"sweep,omitempty"`    // C19: sweep err@k over all k for this export
 	HasTemp bool   `json:"has_temp,omitempty"` // C12: generator knows the v2 temporal group is in Vec
 	HasEnv  bool   `json:"has_env,omitempty"`
+	Tick    int64  `json:"tick,omitempty"`  // nanoseconds the task's simulated clock advances before this operation
 	Class   string `json:"class,omitempty"` // generator's recipe name, informational
 }
 
@@ -150,6 +151,7 @@ type RunStats struct {
 	CrossKeys   [][2]uint64    `json:"cross_keys,omitempty"`   // C15: (key hash, result hash) for cross-process comparison
 	CrossDetail [][3]string    `json:"cross_detail,omitempty"` // C15, replay of a pair only: (key hash, key, result)
 	DescHash    uint64         `json:"desc_hash"`
+	SimNanos    int64          `json:"sim_nanos,omitempty"` // simulated time offered (sum of ticks)
 	Sample      string         `json:"sample,omitempty"`
 }
 
